@@ -327,6 +327,16 @@ impl<'a, D: AsRef<[u8]>, P: AsRef<[usize]>> Lend<'a, D, P> {
     }
 
     pub fn new_from(rca: &'a RearCodedList<D, P>, from: usize) -> Self {
+        if from == rca.len {
+            // Nothing left to lend. When the length is a multiple of k (in
+            // particular, when the list is empty) there is no block to start from.
+            return Lend {
+                rca,
+                index: from,
+                data: &[],
+                buffer: Vec::new(),
+            };
+        }
         let block = from / rca.k;
         let offset = from % rca.k;
 
